@@ -1730,7 +1730,54 @@ def check_loops_unfiltered(u):
     return obligations, failures, samples
 
 
-CHECKS = {"loops_unfiltered": check_loops_unfiltered, "lagged_arm_returns": check_lagged_arm_returns, "apply_trigger_waits": check_apply_trigger_waits, "last_id_published": check_last_id_published, "sub_select_only": check_sub_select_only, "broadcast_delivery": check_broadcast_delivery, "updates_row_binding": check_updates_row_binding, "row_bindings": check_row_bindings, "feeds_fed": check_feeds_fed, "exists_binding": check_exists_binding, "seqmerge_params": check_seqmerge_params, "chunker_ranges": check_chunker_ranges, "persist_before_publish": check_persist_before_publish, "schema_reload": check_schema_reload, "cluster_id_fresh": check_cluster_id_fresh, "schema_ddl": check_schema_ddl, "schema_atomic": check_schema_atomic, "seq_range_guard": check_seq_range_guard, "exits_covered": check_exits_covered, "sub_lag_stops": check_sub_lag_stops, "single_snapshot": check_single_snapshot, "offer_loops": check_offer_loops, "speedy_prealloc": check_speedy_prealloc, "from_conn": check_from_conn, "sql_actor_scoping": check_sql_actor_scoping, "local_write_sequence": check_local_write_sequence, "insert_local_changes": check_insert_local_changes, "authz_layer": check_authz_layer, "readonly_guard": check_readonly_guard, "read_pool": check_read_pool}
+def check_own_actor_guard(u):
+    """C07: a node's own versions come only from its own local writes ("a node never lists a gap in its own versions", "acknowledged with
+    a version exactly one greater than the previous").  handle_changes therefore drops every changeset attributed to the node itself —
+    unconditionally, whatever channel it arrived on — before the changeset touches the seen-cache, the bookkeeping or the apply queue."""
+    file = u["file"]
+    src, msk, o, c = _fn_body(file, u["fn"])
+    body = msk[o:c]
+    name = "changesets-attributed-to-this-node-are-dropped-unconditionally"
+    gs = list(re.finditer(r"\bif\s+(?:change\s*\.\s*actor_id\s*==\s*agent\s*\.\s*actor_id\s*\(\s*\)|agent\s*\.\s*actor_id\s*\(\s*\)\s*==\s*change\s*\.\s*actor_id)\s*\{", body))
+    if not gs:
+        return [name], [(name, _line(src, o), "handle_changes has no `if change.actor_id == agent.actor_id() { continue }` guard")], []
+    # where the changeset is first used for bookkeeping
+    # per-change processing starts where the received changeset is first looked at …
+    st = re.search(r"\blet\s+change_len\s*=\s*change\s*\.\s*len\s*\(\s*\)", body)
+    if not st:
+        raise LostAnchor("handle_changes: start of the per-changeset processing (`let change_len = change.len()`) not found")
+    # … and this is where it is first used for bookkeeping
+    use = re.compile(r"\bseen\s*\.\s*(get|contains_key|insert|entry)\s*\(|\blet\s+booked\s*=|\bqueue\s*\.\s*push").search(body, st.end())
+    if not use:
+        raise LostAnchor("handle_changes: first bookkeeping use of the changeset not found")
+    gs = [g for g in gs if g.start() > st.start()] or gs
+
+    def depth_at(pos):
+        d = 0
+        for ch in body[:pos]:
+            if ch == "{":
+                d += 1
+            elif ch == "}":
+                d -= 1
+        return d
+    failures, samples = [], []
+    ok = False
+    for g in gs:
+        bo = o + g.end() - 1
+        bc = match_delim(msk, bo)
+        blk = re.sub(r"\s+", " ", msk[bo + 1:bc]).strip()
+        ends_with_continue = re.search(r"\bcontinue\s*;?\s*$", blk) is not None
+        if st.start() < g.start() < use.start() and depth_at(g.start()) == depth_at(st.start()) and ends_with_continue:
+            ok = True
+            samples.append("%s:%d own-actor guard at the loop body's top level, before the first bookkeeping use at line %d" % (file, _line(src, o + g.start()), _line(src, o + use.start())))
+    if not ok:
+        g = gs[0]
+        why = "is nested under another condition" if depth_at(g.start()) != depth_at(st.start()) else ("comes after the changeset is first used" if g.start() >= use.start() else "does not `continue`")
+        failures.append((name, _line(src, o + g.start()), "the own-actor guard %s: a changeset attributed to this node can reach its bookkeeping" % why))
+    return [name], failures, samples
+
+
+CHECKS = {"own_actor_guard": check_own_actor_guard, "loops_unfiltered": check_loops_unfiltered, "lagged_arm_returns": check_lagged_arm_returns, "apply_trigger_waits": check_apply_trigger_waits, "last_id_published": check_last_id_published, "sub_select_only": check_sub_select_only, "broadcast_delivery": check_broadcast_delivery, "updates_row_binding": check_updates_row_binding, "row_bindings": check_row_bindings, "feeds_fed": check_feeds_fed, "exists_binding": check_exists_binding, "seqmerge_params": check_seqmerge_params, "chunker_ranges": check_chunker_ranges, "persist_before_publish": check_persist_before_publish, "schema_reload": check_schema_reload, "cluster_id_fresh": check_cluster_id_fresh, "schema_ddl": check_schema_ddl, "schema_atomic": check_schema_atomic, "seq_range_guard": check_seq_range_guard, "exits_covered": check_exits_covered, "sub_lag_stops": check_sub_lag_stops, "single_snapshot": check_single_snapshot, "offer_loops": check_offer_loops, "speedy_prealloc": check_speedy_prealloc, "from_conn": check_from_conn, "sql_actor_scoping": check_sql_actor_scoping, "local_write_sequence": check_local_write_sequence, "insert_local_changes": check_insert_local_changes, "authz_layer": check_authz_layer, "readonly_guard": check_readonly_guard, "read_pool": check_read_pool}
 
 
 def run_unit(prop, u, tier, ctx, here):
